@@ -1,7 +1,11 @@
 (* Props/C11.v — Every control request gets exactly one, truthful reply.
-   PARTIAL at the level of theorems: the reply rules of the three places where the model answers a request are
-   proved below (each answers exactly the requests it takes, exactly once, with the kind the property demands);
-   that every request of every history is answered exactly once and truthfully is decided by the run-time monitor
+   Proved: C11_no_reply_without_request_and_never_two (below): in every model trace every reply answers a request that
+   was sent and is still unanswered, no request is answered twice, and request ids are never reused; the invariant ties
+   the monitor's outstanding set to the model's queue of requests in flight (Proofs/MonitorG.v: triples over monitor
+   state and environment).  Also proved: the reply rules of the three places where the model answers a request.
+   "At least one reply" is liveness (a finite trace may end with requests outstanding; the harness checks that those
+   fail with StateMachineGone at once).
+   PARTIAL: that every reply is the *truthful* one is decided by the run-time monitor
    step11 on every implementation trace (exactly one reply per request id; Started / Throttled only for the oldest
    outstanding request, right after the check-allowed question asked with that request's options and matching its
    answer; AlreadyRunning only during a check or reboot wait; an on-demand request upgrades the reboot question, and a
@@ -57,3 +61,20 @@ Theorem C11_dropped_handles_leave_timers :
 Proof. reflexivity. Qed.
 
 Print Assumptions C11_in_check_request.
+
+(* ---- exactly one reply: the monitor (Model/Monitors11a.v step11a) accepts every trace of the model ---- *)
+Require Import Verif.Model.Monitors11a Verif.Proofs.Monitor Verif.Proofs.C11aProof.
+
+Theorem C11_no_reply_without_request_and_never_two :
+  forall ep cfg url cup apps e, e_trace e = [] -> c_inq (e_cs e) = [] ->
+    accepts step11a {| out11a := []; next11a := e_ctl e |} (run_case ep cfg url cup apps e) = true.
+Proof. exact model_accepted_c11a. Qed.
+
+Example C11a_monitor_rejects :
+  accepts step11a init11a [ARequest 0 OnDemand; AReply 0 Started; AReply 0 AlreadyRunning] = false   (* two replies *)
+  /\ accepts step11a init11a [AReply 0 Started] = false                                              (* a reply nobody asked for *)
+  /\ accepts step11a init11a [ARequest 0 OnDemand; AReply 0 Started; ARequest 0 OnDemand] = false   (* an id reused *)
+  /\ accepts step11a init11a [ARequest 0 OnDemand; ARequest 1 ScheduledTask; AReply 1 AlreadyRunning; AReply 0 Started] = true.
+Proof. vm_compute. repeat split. Qed.
+
+Print Assumptions C11_no_reply_without_request_and_never_two.
